@@ -233,7 +233,7 @@ def dataset_snapshot(path, id_col="rid"):
                 snap["parts"][name] = {"unreadable": f"{type(e).__name__}: {e}"[:200]}
         elif name == "_common_metadata" and os.path.isfile(full):
             try:
-                md = pq.read_schema(full).metadata or {}
+                md = pq.read_metadata(full).metadata or {}
                 sp = md.get(b"spatialpandas")
                 snap["spatial"] = json.loads(sp.decode()) if sp else None
             except Exception as e:  # noqa: BLE001
